@@ -510,7 +510,12 @@ class PKey:
         return data
 
     def _read_private_key(self, tag, f, password=None):
-        lines = f.readlines()
+        try:
+            lines = f.readlines()
+        except UnicodeDecodeError as e:
+            raise SSHException(
+                "not a valid {} private key file: {}".format(tag, e)
+            )
         if not lines:
             raise SSHException("no lines in {} private key file".format(tag))
 
